@@ -1817,12 +1817,16 @@ pub fn verify_compatiblity<T: AbiExportable + ?Sized>(path: &str) -> Result<(), 
     for version in 0..=T::get_latest_version() {
         let def = T::get_definition(version);
         let schema_file_name = Path::join(Path::new(path), format!("savefile_{}_{}.schema", def.name, version));
+        // The definition is stored in the current format of trait definitions. Format 1 cannot represent
+        // the receiver kind or whether a method is async, so a definition stored in it did not compare
+        // equal to itself for async interfaces. Files written in format 1 by earlier versions still load.
+        let definition_format = CURRENT_SAVEFILE_LIB_VERSION as u32;
         if std::fs::metadata(&schema_file_name).is_ok() {
-            let previous_schema = load_file_noschema(&schema_file_name, 1)?;
+            let previous_schema = load_file_noschema(&schema_file_name, definition_format)?;
 
             def.verify_backward_compatible(version, &previous_schema, false)?;
         } else {
-            save_file_noschema(&schema_file_name, 1, &def)?;
+            save_file_noschema(&schema_file_name, definition_format, &def)?;
         }
     }
     Ok(())
